@@ -1143,6 +1143,51 @@ func c15GenRoll(seed uint64, k int) c15Input {
 	return in
 }
 
+// an Updater whose watcher is registered THROUGH THE LOOKUP (the name is not known to the store when
+// NewUpdater is called), then a new version at the service, a poll, Get: the registration made on the lookup
+// path must be woken like any other.  Every way the name can become known: by this very NewUpdater; by an
+// earlier LookupSecret; by another caller's lookup that overtakes this registration's (held) one; declared.
+func c15GenLookupWatch(seed uint64, k int) c15Input {
+	r := NewRand(seed, uint64(4500+k))
+	in := c15Input{Allow: true, Declared: []int{0}, Server: []int{3, 4}}
+	tok := 1
+	nextTok := func() int { tok++; return tok }
+	n := 3 + r.IntN(2)
+	closer := func() bool { return r.IntN(3) != 0 }
+	switch k % 5 {
+	case 0: // looked up by this very registration
+		in.Ops = append(in.Ops, c15Op{Op: "new", Name: n, OK: true, Closer: closer()})
+	case 1: // looked up earlier
+		in.Ops = append(in.Ops, c15Op{Op: "look", Name: n}, c15Op{Op: "new", Name: n, OK: true, Closer: closer()})
+	case 2: // this registration's lookup is held; another NewUpdater's lookup installs the name meanwhile
+		in.Ops = append(in.Ops, c15Op{Op: "lbegin", Name: n, Slot: 0, New: true, OK: true, Closer: closer()},
+			c15Op{Op: "new", Name: n, OK: true, Closer: closer()}, c15Op{Op: "lend", Slot: 0})
+	case 3: // ... or a LookupSecret does
+		in.Ops = append(in.Ops, c15Op{Op: "lbegin", Name: n, Slot: 0, New: true, OK: true, Closer: closer()},
+			c15Op{Op: "look", Name: n}, c15Op{Op: "lend", Slot: 0})
+	default: // declared (the other path), next to one made by lookup
+		in.Ops = append(in.Ops, c15Op{Op: "new", Name: 0, OK: true, Closer: closer()}, c15Op{Op: "new", Name: n, OK: true, Closer: closer()})
+	}
+	if r.IntN(3) == 0 {
+		in.Ops = append(in.Ops, c15Op{Op: "new", Name: n, OK: true, Closer: closer()}) // a second updater on the now known name
+	}
+	rounds := 1 + r.IntN(3)
+	for q := 0; q < rounds; q++ {
+		in.Ops = append(in.Ops, c15Op{Op: "put", Name: n, Tok: nextTok()})
+		if k%5 == 4 || r.IntN(3) == 0 {
+			in.Ops = append(in.Ops, c15Op{Op: "put", Name: 0, Tok: nextTok()})
+		}
+		in.Ops = append(in.Ops, c15Op{Op: "refresh"})
+		for u := 0; u < 3; u++ {
+			in.Ops = append(in.Ops, c15Op{Op: "get", Upd: u, OK: r.IntN(8) != 0})
+		}
+		if r.IntN(2) == 0 {
+			in.Ops = append(in.Ops, c15Op{Op: "read", Name: n})
+		}
+	}
+	return in
+}
+
 // scenarios around the window between a lookup's unknown-name check and its flight (F8): one or two
 // callers are held in the window, somebody else may complete a lookup of the same name (and create
 // updaters on it), the service may activate a new version, the held callers are released in either
@@ -1334,6 +1379,20 @@ func runC15(o Opts) {
 					}
 				}
 			}
+		}
+		// updaters registered through the lookup, then a new version and a poll
+		nw := 40
+		if o.Tier == "thorough" {
+			nw = 1000
+		}
+		if o.N > 0 {
+			nw = o.N / 8
+		}
+		for k := 0; k < nw; k++ {
+			in := c15GenLookupWatch(o.Seed, k)
+			rec, _, _, _ := c15Run(t, in)
+			rec.Tags = append(rec.Tags, "updater-registered-through-a-lookup-then-new-version")
+			out.Emit(rec)
 		}
 		// late flights (F8)
 		nl := 60
